@@ -13,11 +13,17 @@
 //!   send s<i> gate=g<j> at=<ns> delay=<ns> from=start|msg
 //!                                              the owner of g<j> calls `send` (delay 0) or `send_in`
 //!                                              at time <at> from `at_sim_start` (at = 0) or `handle_message`
+//!        optional: rcv=m<k> / snd=m<k>      the message is built with `.receiver_module_id(..)` / `.sender_module_id(..)`
+//!                  fwd=<gate>:<delay>,…     forwarding: the module that receives the message sends the received
+//!                                           message object on — over its gate g<x> or `back` through the gate it
+//!                                           arrived on — with `send` (delay 0) or `send_in`; one entry per further leg
 //! Transcript: each executed line + ` -> answer`.
 //!   connect … -> ok [tx=<ns>] | panic         tx = `Channel::calculate_busy` of the (64 byte) test message, read from the code
 //!   lconnect … -> ok [tx=<ns>] | notrun | skipped   notrun: the module never got to it (shut down); skipped: a gate was full
 //!   walk g -> kind=<standalone|endpoint|transit> next=<g|none> end=<g|none> path=<g:ch,…|empty|none> prev=<g,…|empty|none>
 //!   send … -> n=<deliveries> [rx=<m> t=<ns> sender=<m> receiver=<m> last=<g|none>] | skipped-transit
+//!             one such segment per leg, joined by ` | `; a forward that cannot be made ends the list with
+//!             `wrong-owner` (the gate is not the receiver's) or `skipped-transit`
 use crate::rng::Rng;
 use crate::util::{cases, guarded, hval};
 use des::net::gate::GateKind;
@@ -54,6 +60,9 @@ struct SendOp {
     at: u64,
     delay: u64,
     from_start: bool,
+    rcv: Option<String>,
+    snd: Option<String>,
+    legs: Vec<(String, u64)>,
 }
 
 #[derive(Clone, Debug)]
@@ -64,6 +73,7 @@ struct Delivery {
     sender: u16,
     receiver: u16,
     last: Option<(String, String, usize)>, // owner path, gate name, pos
+    leg: usize,
 }
 
 #[derive(Default)]
@@ -73,6 +83,9 @@ struct Shared {
     skipped: Vec<u16>,
     disabled: Vec<u16>,
     late_done: Vec<(u16, &'static str)>,
+    by_name: HashMap<String, u16>,                 // module path -> id (known after the build)
+    legs: HashMap<u16, Vec<(String, u64)>>,        // send idx -> forwarding legs
+    stops: HashMap<u16, &'static str>,             // send idx -> why the next forward was not made
 }
 
 struct Node {
@@ -109,7 +122,16 @@ impl Node {
             self.shared.lock().unwrap().skipped.push(op.idx);
             return;
         }
-        let msg = Message::default().kind(DATA).id(op.idx);
+        let mut msg = Message::default().kind(DATA).id(op.idx);
+        {
+            let sh = self.shared.lock().unwrap();
+            if let Some(id) = op.rcv.as_ref().and_then(|m| sh.by_name.get(m)) {
+                msg = msg.receiver_module_id(ModuleId(*id));
+            }
+            if let Some(id) = op.snd.as_ref().and_then(|m| sh.by_name.get(m)) {
+                msg = msg.sender_module_id(ModuleId(*id));
+            }
+        }
         if op.delay == 0 {
             send(msg, gate);
         } else {
@@ -168,15 +190,37 @@ impl Module for Node {
                 g.pos(),
             )
         });
-        let d = Delivery {
-            idx: h.id,
-            rx_path: current().path().as_str().to_string(),
-            t: SimTime::now().as_nanos(),
-            sender: h.sender_module_id.0,
-            receiver: h.receiver_module_id.0,
-            last,
+        let idx = h.id;
+        let back = h.last_gate.clone();
+        let next_leg = {
+            let mut sh = self.shared.lock().unwrap();
+            let leg = sh.deliveries.iter().filter(|d| d.idx == idx).count();
+            let d = Delivery {
+                idx,
+                rx_path: current().path().as_str().to_string(),
+                t: SimTime::now().as_nanos(),
+                sender: h.sender_module_id.0,
+                receiver: h.receiver_module_id.0,
+                last,
+                leg,
+            };
+            sh.deliveries.push(d);
+            sh.legs.get(&idx).and_then(|l| l.get(leg).cloned())
         };
-        self.shared.lock().unwrap().deliveries.push(d);
+        // forwarding: send the received message object on
+        if let Some((gate, delay)) = next_leg {
+            let g = if gate == "back" { back } else { GATES.with(|g| g.borrow().get(&gate).cloned()) };
+            let Some(g) = g else { return };
+            if g.owner().id() != current().id() {
+                self.shared.lock().unwrap().stops.insert(idx, "wrong-owner");
+            } else if g.kind() == GateKind::Transit {
+                self.shared.lock().unwrap().stops.insert(idx, "skipped-transit");
+            } else if delay == 0 {
+                send(msg, g);
+            } else {
+                send_in(msg, g, Duration::from_nanos(delay));
+            }
+        }
     }
 }
 
@@ -272,6 +316,20 @@ fn run_case(header: &str, body: &[String], out: &mut String) {
                 at: hval(&l, "at").and_then(|v| v.parse().ok()).unwrap_or(0),
                 delay: hval(&l, "delay").and_then(|v| v.parse().ok()).unwrap_or(0),
                 from_start: hval(&l, "from").map(|v| v == "start").unwrap_or(false),
+                rcv: hval(&l, "rcv"),
+                snd: hval(&l, "snd"),
+                legs: hval(&l, "fwd")
+                    .map(|f| {
+                        f.split(',')
+                            .filter_map(|e| {
+                                let mut it = e.split(':');
+                                let g = it.next()?.to_string();
+                                let d = it.next()?.parse().ok()?;
+                                Some((g, d))
+                            })
+                            .collect()
+                    })
+                    .unwrap_or_default(),
             };
             send_ids.insert(s.to_string(), send_idx);
             send_idx += 1;
@@ -339,6 +397,9 @@ fn run_case(header: &str, body: &[String], out: &mut String) {
                     shared: shared.clone(),
                 };
                 if guarded(|| sim.node(*m, node)).is_ok() {
+                    if let Some(r) = sim.get(&(*m).into()) {
+                        shared.lock().unwrap().by_name.insert(m.to_string(), r.id().0);
+                    }
                     created_mods.push(m.to_string());
                     lines.push(Line::Plain(format!("{line} -> ok")));
                 }
@@ -438,7 +499,8 @@ fn run_case(header: &str, body: &[String], out: &mut String) {
                     if !poisoned.is_empty() {
                         let g = hval(&rest.join(" "), "gate").and_then(|g| gates.get(&g).cloned());
                         let walkable = g.map(|g| guarded(|| g.path_iter().map(|it| it.take(64).count())).is_ok()).unwrap_or(false);
-                        if !walkable {
+                        // forwarding could run into the poisoned gates at run time
+                        if !walkable || hval(&rest.join(" "), "fwd").is_some() {
                             shared.lock().unwrap().disabled.push(*idx);
                             continue;
                         }
@@ -453,6 +515,16 @@ fn run_case(header: &str, body: &[String], out: &mut String) {
         }
     }
 
+    {
+        let mut sh = shared.lock().unwrap();
+        for ops in sends_of.values() {
+            for op in ops {
+                if !op.legs.is_empty() {
+                    sh.legs.insert(op.idx, op.legs.clone());
+                }
+            }
+        }
+    }
     // run
     GATES.with(|g| *g.borrow_mut() = gates.clone());
     let rt = Builder::seeded(1).quiet().max_time(100_000.0.into()).build(sim.freeze());
@@ -480,28 +552,42 @@ fn run_case(header: &str, body: &[String], out: &mut String) {
                     writeln!(out, "{s} -> skipped-transit").unwrap();
                     continue;
                 }
-                let ds: Vec<&Delivery> = sh.deliveries.iter().filter(|d| d.idx == idx).collect();
-                if ds.is_empty() {
-                    writeln!(out, "{s} -> n=0").unwrap();
-                } else {
+                let name = |id: u16| sh.ids.get(&id).cloned().unwrap_or_else(|| format!("#{id}"));
+                let nlegs = sh.legs.get(&idx).map(|l| l.len()).unwrap_or(0);
+                let mut segs: Vec<String> = Vec::new();
+                for k in 0..=nlegs {
+                    let ds: Vec<&Delivery> = sh.deliveries.iter().filter(|d| d.idx == idx && d.leg == k).collect();
+                    if ds.is_empty() {
+                        if k == 0 {
+                            segs.push("n=0".into());
+                        } else if let Some(why) = sh.stops.get(&idx) {
+                            segs.push((*why).into());
+                        } else {
+                            segs.push("n=0".into());
+                        }
+                        break;
+                    }
                     let d = ds[0];
-                    let name = |id: u16| sh.ids.get(&id).cloned().unwrap_or_else(|| format!("#{id}"));
                     let last = match &d.last {
                         Some(k) => rev.get(k).cloned().unwrap_or_else(|| "?".into()),
                         None => "none".into(),
                     };
-                    writeln!(
-                        out,
-                        "{s} -> n={} rx={} t={} sender={} receiver={} last={}",
+                    segs.push(format!(
+                        "n={} rx={} t={} sender={} receiver={} last={}",
                         ds.len(),
                         d.rx_path,
                         d.t,
                         name(d.sender),
                         name(d.receiver),
                         last
-                    )
-                    .unwrap();
+                    ));
                 }
+                // more deliveries than legs: a message was delivered twice
+                let extra = sh.deliveries.iter().filter(|d| d.idx == idx && d.leg > nlegs).count();
+                if extra > 0 {
+                    segs.push(format!("extra={extra}"));
+                }
+                writeln!(out, "{s} -> {}", segs.join(" | ")).unwrap();
             }
         }
     }
@@ -524,7 +610,7 @@ const LATES: [u64; 6] = [3, 7, 1_003, 30_003, 1_000_003, 2_500_000_003];
 // bitrates whose transmission time for the 64-byte test message (512 bit) is a whole, even number of ns
 const BITRATES: [u64; 6] = [512, 1_024, 512_000, 5_120_000, 256_000_000, 51_200_000_000];
 // in cases with finite bitrates the sends are this far apart, so every channel is idle again
-const GAP: u64 = 100_000_000_000;
+const GAP: u64 = 300_000_000_000;
 
 pub fn gen(seed: u64, count: usize, thorough: bool) -> String {
     let mut r = Rng::new(seed);
@@ -548,17 +634,20 @@ pub fn gen(seed: u64, count: usize, thorough: bool) -> String {
         // gates; some grouped into clusters on one module
         let mut g = 0;
         let mut cl = 0;
+        let mut owners: Vec<u64> = Vec::new();
         while g < ngates {
             let m = r.below(nmods as u64);
             if r.chance(1, 4) && g + 1 < ngates {
                 let size = (r.range(2, 3) as usize).min(ngates - g);
                 for p in 0..size {
                     writeln!(out, "gate g{} mod=m{m} cl=c{cl} pos={p} size={size}", g + p).unwrap();
+                    owners.push(m);
                 }
                 cl += 1;
                 g += size;
             } else {
                 writeln!(out, "gate g{g} mod=m{m}").unwrap();
+                owners.push(m);
                 g += 1;
             }
         }
@@ -691,7 +780,65 @@ pub fn gen(seed: u64, count: usize, thorough: bool) -> String {
                 let at = if mode == 1 { s as u64 * GAP + at } else { at };
                 let delay = if r.chance(1, 2) { 0 } else { *r.pick(&DELAYS) + 2 * r.below(3) };
                 let from = if at == 0 && r.chance(1, 2) { "start" } else { "msg" };
-                writeln!(out, "send s{s} gate=g{g} at={at} delay={delay} from={from}").unwrap();
+                let mut extra = String::new();
+                // messages built with explicit ids
+                if r.chance(1, 2) {
+                    // mostly a module other than the one the chain leads to
+                    let mut expected = owners[g];
+                    for c in &chains {
+                        if c[0] == g {
+                            expected = owners[c[c.len() - 1]];
+                        } else if c[c.len() - 1] == g {
+                            expected = owners[c[0]];
+                        }
+                    }
+                    let mut m = r.below(nmods as u64);
+                    if m == expected && nmods >= 2 {
+                        m = (m + 1) % nmods as u64;
+                    }
+                    write!(extra, " rcv=m{m}").unwrap();
+                }
+                if r.chance(1, 8) {
+                    write!(extra, " snd=m{}", r.below(nmods as u64)).unwrap();
+                }
+                // forwarding: the receiver sends the received message on (1-3 further legs)
+                if r.chance(1, 2) {
+                    let far = |x: usize| -> usize {
+                        for c in &chains {
+                            if c[0] == x {
+                                return c[c.len() - 1];
+                            }
+                            if c[c.len() - 1] == x {
+                                return c[0];
+                            }
+                        }
+                        x
+                    };
+                    let mut cur = far(g);
+                    let mut legs: Vec<String> = Vec::new();
+                    for _ in 0..r.range(1, 3) {
+                        let d = if mode != 1 && r.chance(1, 2) { 0 } else { *r.pick(&DELAYS) };
+                        let rx = owners[cur];
+                        let cands: Vec<usize> = (0..ngates).filter(|x| owners[*x] == rx).collect();
+                        let ends: Vec<usize> = cands.iter().cloned().filter(|x| far(*x) != *x).collect();
+                        let pick = r.below(6);
+                        if pick < 2 {
+                            legs.push(format!("back:{d}"));
+                            cur = far(cur);
+                        } else if pick < 5 && !ends.is_empty() {
+                            let x = *r.pick(&ends);
+                            legs.push(format!("g{x}:{d}"));
+                            cur = far(x);
+                        } else {
+                            // any gate (possibly of another module, possibly standalone or an inner gate)
+                            let x = if r.chance(2, 3) { *r.pick(&cands) } else { r.below(ngates as u64) as usize };
+                            legs.push(format!("g{x}:{d}"));
+                            cur = far(x);
+                        }
+                    }
+                    write!(extra, " fwd={}", legs.join(",")).unwrap();
+                }
+                writeln!(out, "send s{s} gate=g{g} at={at} delay={delay} from={from}{extra}").unwrap();
                 s += 1;
             }
         }
